@@ -32,12 +32,13 @@ structure BlockLevelAssumptions (cfg : Cfg) (codec : Codec) (crc : Checksum) : P
   a1 : ∀ (es : List Entry) (rest : Bytes), GoodBlock es →
     readNextBlock cfg codec.toDecoder crc (encodeBlock codec crc es ++ rest) = .ok es rest
   /-- (A2) a payload of the announced length whose checksum differs from the stored one is
-      `ErrCorruptedBlock` — "anything else fails the checksum" holds up to the 2⁻³² CRC residual:
+      `ErrCorruptedBlock` or, when it runs out in zeros with only zeros behind (the zero-filled
+      tail rule), the end of the data; entries are never returned for it — "anything else fails the checksum" holds up to the 2⁻³² CRC residual:
       what the byte level proves is the implication from an actual checksum mismatch -/
   a2 : ∀ rest : Bytes, 16 ≤ rest.length → (decodeBlockHeader rest).csize ≤ (rest.drop 16).length →
     0 < (decodeBlockHeader rest).csize →
     (crc ((rest.drop 16).take (decodeBlockHeader rest).csize)).toNat ≠ (decodeBlockHeader rest).crc →
-    readNextBlock cfg codec.toDecoder crc rest = .err .crc
+    (readNextBlock cfg codec.toDecoder crc rest = .err .crc ∨ readNextBlock cfg codec.toDecoder crc rest = .eof)
   /-- the writer only ever appends such blocks: after any history the file is header ++ name ++
       well-formed blocks whose entries are the acknowledged writes that left the buffer -/
   writerShape : ∀ (bs : Nat) (name : Bytes) (now : Nat) (ops : List Op), Params cfg bs → name.length < 2 ^ 16 → WritesOK cfg ops →
